@@ -350,6 +350,7 @@ func runChanOp(op *chanOp) int {
 			if !c.trySend() {
 				panic("vrt: model/real divergence: buffered send would block")
 			}
+			s.sent(c.id)
 			return k
 		}
 		// rendezvous: choose the receiver
@@ -362,6 +363,7 @@ func runChanOp(op *chanOp) int {
 		}
 		u, j := s.partner(t, c.id, false, s.pick(n))
 		u.handed, u.hcase, u.hval, u.hok = true, j, c.val(), true
+		s.sent(c.id)
 		s.sync(t, u)
 		raceAcquireAddr(c.ptr)
 		raceReleaseAddr(c.ptr)
@@ -397,6 +399,7 @@ func runChanOp(op *chanOp) int {
 	u, j := s.partner(t, c.id, true, s.pick(n))
 	c.deliver(u.pend.ch.cases[j].val(), true)
 	u.handed, u.hcase = true, j
+	s.sent(c.id)
 	s.sync(t, u)
 	raceAcquireAddr(c.ptr)
 	raceReleaseAddr(c.ptr)
@@ -418,4 +421,48 @@ func (s *Sched) sync(a, b *Thread) {
 	ha, hb := a.hash, b.hash
 	a.hash = mix(ha, mix(hb, 0x51))
 	b.hash = mix(hb, mix(ha, 0x52))
+}
+
+type sendCount struct {
+	id uintptr
+	n  int
+}
+
+// (a slice, not a map: the runtime's map functions carry their own race instrumentation)
+//
+//go:norace
+func (s *Sched) sent(id uintptr) {
+	for i := range s.sends {
+		if s.sends[i].id == id {
+			s.sends[i].n++
+			return
+		}
+	}
+	if len(s.sends) == cap(s.sends) {
+		n := make([]sendCount, len(s.sends), 2*cap(s.sends)+16)
+		for i := range s.sends {
+			n[i] = s.sends[i]
+		}
+		s.sends = n
+	}
+	s.sends = s.sends[:len(s.sends)+1]
+	s.sends[len(s.sends)-1] = sendCount{id, 1}
+}
+
+// SendsDone returns how many send operations on ch have completed in the current execution (into the
+// buffer, or handed to a receiver - whether or not that receiver has run since). Harness oracles use it
+// to ask "has this hand-off finished" without looking at goroutines.
+//
+//go:norace
+func SendsDone[C ~chan V | ~chan<- V | ~<-chan V, V any](ch C) int {
+	if cur == nil {
+		return 0
+	}
+	id := chanID(ch)
+	for i := range cur.sends {
+		if cur.sends[i].id == id {
+			return cur.sends[i].n
+		}
+	}
+	return 0
 }
